@@ -23,7 +23,7 @@
 //        -> LS lines: the real calcGradient / solveSub / updateWeightVectors of QpMcLinear<type>, one example at a time (own epoch loop)
 //  BLSTEPS id bound reg offset nepochs seed n d y.. x..
 //        -> BL lines: the real QpBoxLinear::solve, one epoch per call (warm start), with the epoch's schedule re-derived from the seed
-//  STEPS id type C eps shrinkperiod nsteps mode seed kernel gamma n d y.. x..     (mode: bit 0 random working sets, bit 1 addDeltaLinear events)
+//  STEPS id type C eps shrinkperiod nsteps mode seed kernel gamma n d y.. x..     (mode: bit 0 random working sets, bit 1 addDeltaLinear events, bit 2 performBiasUpdate events of the real bias solver)
 //        -> RUN/SS|SB/ST/EV/END lines: the real QpMcSimplexDecomp / QpMcBoxDecomp driven step by step; for the state model
 //           C16State.v additionally MH (constants) MI (constructor inputs) MS (full positional state) MO (operation) MK (kernel matrix) SE (selectWorkingSet: inputs > violation i j) KK (checkKKT)
 #include <cstdio>
@@ -273,6 +273,7 @@ template<class Mx> struct Access<QpMcSimplexDecomp<Mx> > {
 	static std::size_t exOf(P& q, std::size_t v) { return q.m_variables[v].example; }
 	static double varsum(P& q, std::size_t e) { return q.m_examples[e].varsum; }
 	static double ediag(P& q, std::size_t e) { return q.m_examples[e].diagonal; }
+	typedef BiasSolverSimplex<Mx> BS;
 	static const bool simplex = true;
 };
 template<class Mx> struct Access<QpMcBoxDecomp<Mx> > {
@@ -280,6 +281,7 @@ template<class Mx> struct Access<QpMcBoxDecomp<Mx> > {
 	static std::size_t exOf(P& q, std::size_t v) { return q.m_variables[v].i; }
 	static double varsum(P&, std::size_t) { return 0.0; }
 	static double ediag(P&, std::size_t) { return 0.0; }
+	typedef BiasSolver<Mx> BS;
 	static const bool simplex = false;
 };
 
@@ -322,7 +324,7 @@ static void dumpFull(P& q, const std::string& id) {
 }
 // MH id simplex P classes n C  K {entry(i,j)}*n*n  M rows {default size {index value}*size}*rows : the constants of the state model
 template<class P, class Mx, class F>
-static void dumpHeader(P& q, const std::string& id, Mx& matrix, QpSparseArray<F> const& M, double C) {
+static void dumpHeader(P& q, const std::string& id, Mx& matrix, QpSparseArray<F> const& M, double C, QpSparseArray<F> const* nu = 0) {
 	std::size_t n = q.m_numExamples;
 	std::printf("MH %s %d %zu %zu %zu %a K", id.c_str(), (int)Access<P>::simplex, (std::size_t)q.m_cardP, (std::size_t)q.m_classes, n, C);
 	for (std::size_t i = 0; i < n; i++) for (std::size_t j = 0; j < n; j++) std::printf(" %a", (double)matrix.entry(i, j));
@@ -331,6 +333,14 @@ static void dumpHeader(P& q, const std::string& id, Mx& matrix, QpSparseArray<F>
 		typename QpSparseArray<F>::Row const& row = M.row(r);
 		std::printf(" %a %zu", (double)row.defaultvalue, (std::size_t)row.size);
 		for (std::size_t b = 0; b < row.size; b++) std::printf(" %zu %a", (std::size_t)row.entry[b].index, (double)row.entry[b].value);
+	}
+	if (nu) {      // N rows {size {index value}*size}*rows : the explicit entries of nu (what performBiasUpdate reads)
+		std::printf(" N %zu", (std::size_t)nu->height());
+		for (std::size_t r = 0; r < nu->height(); r++) {
+			typename QpSparseArray<F>::Row const& row = nu->row(r);
+			std::printf(" %zu", (std::size_t)row.size);
+			for (std::size_t b = 0; b < row.size; b++) std::printf(" %zu %a", (std::size_t)row.entry[b].index, (double)row.entry[b].value);
+		}
 	}
 	std::printf("\n");
 }
@@ -375,15 +385,16 @@ static bool tablesConsistent(P& q, std::string& why) {
 }
 
 template<class P, class Mx, class F>
-static void driveSteps(const std::string& id, Mx& matrix, QpSparseArray<F> const& M, ClassificationDataset const& data,
+static void driveSteps(const std::string& id, Mx& matrix, QpSparseArray<F> const& M, QpSparseArray<F> const& nu, ClassificationDataset const& data,
 		RealMatrix const& linear, double C, double eps, long shrinkPeriod, long nsteps, int mode, unsigned long seed) {
-	bool randsel = (mode & 1) != 0, addlin = (mode & 2) != 0;     // mode bit 1: addDeltaLinear events (what the bias solvers do between runs)
+	bool randsel = (mode & 1) != 0, addlin = (mode & 2) != 0, biasupd = (mode & 4) != 0;   // bit 2: the real performBiasUpdate of the bias solver     // mode bit 1: addDeltaLinear events (what the bias solvers do between runs)
 	typedef Access<P> Ac;
 	P q(matrix, M, data.labels(), linear, C);
 	q.setShrinking(shrinkPeriod != 0);
 	std::mt19937 rng(seed);
 	std::size_t cp = q.m_cardP;
-	dumpHeader(q, id, matrix, M, C);
+	dumpHeader(q, id, matrix, M, C, &nu);
+	RealVector biasNow(q.m_classes, 0.0);
 	std::printf("MI %s", id.c_str());     // constructor inputs: labels, linear part
 	for (std::size_t i = 0; i < q.m_numExamples; i++) std::printf(" %u", data.labels().element(i));
 	for (std::size_t i = 0; i < q.m_numExamples; i++) for (std::size_t pp = 0; pp < cp; pp++) std::printf(" %a", linear(i, pp));
@@ -415,6 +426,23 @@ static void driveSteps(const std::string& id, Mx& matrix, QpSparseArray<F> const
 			std::printf("\n");
 			q.addDeltaLinear(delta);
 			dumpFull(q, id);
+			std::printf("EV %s addlin\n", id.c_str()); dumpState(q, "ST", id);
+			{ std::size_t v0 = v, w0 = w; double a2 = q.selectWorkingSet(v, w); std::printf("SE %s %zu %zu > %a %zu %zu\n", id.c_str(), v0, w0, a2, v, w); }
+		}
+		if (biasupd && (rng() % 4 == 0)) {
+			RealVector step(q.m_classes);
+			std::printf("MO %s biasupd", id.c_str());
+			for (std::size_t cc = 0; cc < q.m_classes; cc++) { step(cc) = ((int)(rng() % 9) - 4) / 16.0; std::printf(" %a", step(cc)); }
+			std::printf(" B");
+			for (std::size_t cc = 0; cc < q.m_classes; cc++) std::printf(" %a", biasNow(cc));
+			std::printf("\n");
+			typename Ac::BS bs(&q);
+			bs.performBiasUpdate(step, nu);
+			biasNow += step;
+			dumpFull(q, id);
+			std::printf("BV %s", id.c_str());
+			for (std::size_t cc = 0; cc < q.m_classes; cc++) std::printf(" %a", biasNow(cc));
+			std::printf("\n");
 			std::printf("EV %s addlin\n", id.c_str()); dumpState(q, "ST", id);
 			{ std::size_t v0 = v, w0 = w; double a2 = q.selectWorkingSet(v, w); std::printf("SE %s %zu %zu > %a %zu %zu\n", id.c_str(), v0, w0, a2, v, w); }
 		}
@@ -530,8 +558,8 @@ static void cmdSteps(const Tok& t) {
 	KM km(*kernel, data.inputs());
 	PM matrix(&km);
 	std::printf("RUN %s %s %zu %zu %zu %d %a\n", id.c_str(), tn.c_str(), n, classes, (std::size_t)M.width(), (int)simplex, C);
-	if (simplex) driveSteps<QpMcSimplexDecomp<PM>, PM, double>(id, matrix, M, data, linear, C, eps, sp, nsteps, randsel, seed);
-	else driveSteps<QpMcBoxDecomp<PM>, PM, double>(id, matrix, M, data, linear, C, eps, sp, nsteps, randsel, seed);
+	if (simplex) driveSteps<QpMcSimplexDecomp<PM>, PM, double>(id, matrix, M, nu, data, linear, C, eps, sp, nsteps, randsel, seed);
+	else driveSteps<QpMcBoxDecomp<PM>, PM, double>(id, matrix, M, nu, data, linear, C, eps, sp, nsteps, randsel, seed);
 }
 
 // ------------------------------------------------------------------------------------------- LSTEPS / BLSTEPS
